@@ -17,4 +17,5 @@ def run(ctx):
     def judge(sess, r):
         return SS.judge(sess, r) + meta_gen.judge_meta(sess, r, model, wd) + meta_gen.judge_redef(sess, r)
     gens = [('redef', dict(fn=lambda rng: meta_gen.gen_redef_session(rng), share=1))]
-    api_check.run_api_check(ctx, gens, None, n_quick=100, n_thorough=1500, judge=judge)
+    api_check.run_api_check(ctx, gens, None, n_quick=100, n_thorough=1500, judge=judge,
+                            gens_translators=('consts', 'begins'))
